@@ -42,13 +42,13 @@ ESSENTIAL = {
     "C06_router": ["several-routes-accept", "no-route-accepts", "unhandled-iq-request", "first-match-not-first-route", "response-to-pending-request", "router-used-before"],
     "C07_iqresult": ["parked-at-yield-point", "duplicate-response", "cancellation"],
     "C07_stress": ["racing-cancellation", "abandoned-receiver"],
-    "C07_e2e": ["request-from-inside-a-handler", "duplicate-responses", "component"],
+    "C07_e2e": ["request-from-inside-a-handler", "duplicate-responses", "component", "response-arrives-after-reconnection"],
     "C08_bigwrite": ["logger", "tls"],
-    "C08_send": ["concurrent", "send-after-disconnect", "client-ws", "client-tls", "component-tcp"],
+    "C08_send": ["concurrent", "send-after-disconnect", "send-after-reported-loss", "client-ws", "client-tls", "component-tcp"],
     "C09_smcount": ["resumption", "r-after-non-stanza", "earlier-connections-without-sm", "enabled-without-resumption"],
     "C10_smqueue": ["ack-with-unacked-suffix", "stale-ack", "ack-beyond-sent", "server-r"],
     "C11_resume": ["resumed", "non-success-reply"],
-    "C12_cut": ["tls", "logger", "sm", "websocket", "cut-in-tag", "cut-in-text", "cut-between-elements", "prior-history"],
+    "C12_cut": ["tls", "logger", "sm", "websocket", "cut-in-tag", "cut-in-text", "cut-between-elements", "prior-history", "ack-then-connection-gone"],
     "C13_streammanager": ["server-down", "failing-attempts", "end-streamclose", "end-reset", "end-streamerror", "permanent-error", "stop-while-reconnecting", "short-keepalive", "starttls"],
     "C14_sasl": ["no-common-mechanism", "list-changes-across-starttls", "reconnection-with-other-list", "reply-failure", "auth-write-fault", "traffic-logger", "foreign-mechanisms-lookalike"],
     "C15_jid": ["must-reject", "must-accept", "domain-with-resource", "resource-with-slash-or-at"],
